@@ -45,6 +45,10 @@ type c10E2E struct {
 	bufKind  string
 	connAuth string // AuthUser seen in the connection state at Body time
 	started  int
+	// first step `R`: the queue is told to shut down while the transaction completes (its time wheel
+	// is stopped right before Commit): the client gets its 250, nothing is dispatched, the server
+	// "restarts" before the first attempt
+	stopBeforeCommit bool
 }
 
 type c10Proxy struct {
@@ -137,7 +141,12 @@ func (d *c10ProxyDelivery) Body(ctx context.Context, header textproto.Header, bo
 }
 
 func (d *c10ProxyDelivery) Abort(ctx context.Context) error  { return d.d.Abort(ctx) }
-func (d *c10ProxyDelivery) Commit(ctx context.Context) error { return d.d.Commit(ctx) }
+func (d *c10ProxyDelivery) Commit(ctx context.Context) error {
+	if d.e.stopBeforeCommit {
+		d.e.w.q.wheel.Close()
+	}
+	return d.d.Commit(ctx)
+}
 
 type c10AuthMod struct {
 	mu         sync.Mutex
@@ -295,10 +304,12 @@ func c10Smtp(out *vh.Out, ep *c10Endpoint, op string) {
 		return
 	}
 	var steps []c10Step
-	for _, s := range strings.Split(t[2], ".") {
+	for si, s := range strings.Split(t[2], ".") {
 		switch {
 		case s == "r":
 			steps = append(steps, c10Step{restart: true})
+		case s == "R" && si == 0:
+			steps = append(steps, c10Step{restart: true, commit: true})
 		case len(s) >= 2 && s[0] == 'a' && (s[1] == 'P' || s[1] == 'A'):
 			steps = append(steps, c10Step{partial: s[1] == 'P', letters: s[2:]})
 		}
@@ -323,6 +334,7 @@ func c10Smtp(out *vh.Out, ep *c10Endpoint, op string) {
 	w := c10NewWorld(steps, secrets)
 	defer w.cleanup()
 	e := &c10E2E{w: w, acc: &c10Accepted{envUTF8: true}}
+	e.stopBeforeCommit = len(steps) > 0 && steps[0].restart && steps[0].commit
 	ep.auth.mu.Lock()
 	ep.auth.user, ep.auth.pass = user, pass
 	ep.auth.mu.Unlock()
@@ -438,6 +450,7 @@ func c10Smtp(out *vh.Out, ep *c10Endpoint, op string) {
 		return
 	}
 	out.Stat("smtp.accepted")
+	w.acked = true // 250 after DATA
 	acc := e.acc
 	for _, s := range append([]string{acc.from}, acc.to...) {
 		if !utf8.ValidString(s) {
@@ -503,7 +516,11 @@ func c10Smtp(out *vh.Out, ep *c10Endpoint, op string) {
 	var hist []string
 	for _, st := range steps {
 		if st.restart {
-			hist = append(hist, "r")
+			if st.commit {
+				hist = append(hist, "R")
+			} else {
+				hist = append(hist, "r")
+			}
 			continue
 		}
 		l := st.letters
@@ -541,7 +558,12 @@ func c10Smtp(out *vh.Out, ep *c10Endpoint, op string) {
 
 // ---- generators ----
 
-func c10GenSmtp(r *vh.Rng, big bool) string {
+// body sizes asked of the generator (the DATA framing completes the last line, so the body the queue
+// is handed is up to two bytes longer): empty, a lone line end, around the 4096 / 32 KiB buffers,
+// around the 1 MiB spill-to-file threshold of the endpoint's buffer
+var c10EdgeSizesSmtp = []int{0, 0, 1, 2, 4094, 4096, 32766, 32768, 1<<20 - 2, 1<<20 - 1, 1 << 20}
+
+func c10GenSmtp(r *vh.Rng, big bool, edge int) string {
 	utf8opt := r.Chance(60)
 	genAddr := func() string {
 		for {
@@ -577,6 +599,12 @@ func c10GenSmtp(r *vh.Rng, big bool) string {
 	}
 	var steps []string
 	na := 1 + r.Intn(3)
+	if r.Chance(10) {
+		steps = append(steps, "R") // restart before the first attempt
+		if r.Chance(30) {
+			steps = append(steps, "r")
+		}
+	}
 	for a := 0; a < na; a++ {
 		kind := "P"
 		if r.Chance(30) {
@@ -615,13 +643,22 @@ func c10GenSmtp(r *vh.Rng, big bool) string {
 	if r.Chance(25) {
 		blob = append([]byte("TLS-Required: No\r\n"), blob...)
 	}
-	if r.Chance(10) { // a header the endpoint's parser refuses
+	if r.Chance(10) && edge < 0 { // a header the endpoint's parser refuses
 		blob = append([]byte(" leading space\r\n"), blob...)
+	}
+	if edge >= 0 {
+		steps = c10EdgeHistory((edge/len(c10EdgeSizesSmtp))%c10EdgeShapes, nr, steps, false)
+		if (edge+edge/len(c10EdgeSizesSmtp))%3 == 0 {
+			blob = []byte("\r\n") // no header field at all from the client
+		}
 	}
 	sizes := []int{0, 0, 1, 2, 17, 200, 1500, 4095, 4096, 4097, 32768, 70000}
 	n := sizes[r.Intn(len(sizes))]
 	if big {
 		n = []int{1 << 20, 1<<20 + 1, 1<<20 + 4097, 2<<20 + 3}[r.Intn(4)]
+	}
+	if edge >= 0 {
+		n = c10EdgeSizesSmtp[edge%len(c10EdgeSizesSmtp)]
 	}
 	return fmt.Sprintf("C10 smtp %s %s A=%s F=%s R=%s H=%s B=%d:%d:%d", strings.Join(steps, "."), opts, c10Bit(r.Chance(60)),
 		c10HexOrEmpty([]byte(from)), strings.Join(rc, ","), c10HexOrEmpty(blob), r.Intn(4), n, r.Next()%1000000007)
@@ -657,7 +694,15 @@ func TestVerifC10Smtp(t *testing.T) {
 		nbig = 10
 	}
 	for i := 0; i < n; i++ {
-		c10Smtp(out, ep, c10GenSmtp(r, i < nbig))
+		c10Smtp(out, ep, c10GenSmtp(r, i < nbig, -1))
+	}
+	nedge := len(c10EdgeSizesSmtp) * c10EdgeShapes
+	if vh.Thorough() {
+		nedge *= 3
+	}
+	re := vh.NewRng(vh.Seed() + 3011)
+	for e := 0; e < nedge; e++ {
+		c10Smtp(out, ep, c10GenSmtp(re, false, e))
 	}
 	// fixed cases: addresses that are not valid UTF-8 (sender / recipient), with retry and restart
 	for _, op := range []string{
